@@ -64,3 +64,55 @@ func numR(log []string) []byte { return []byte(log[len(log)-1]) }
 //@   modifies log:ints
 //@   ensures one: len(vLogStr("ints")) == len(old(vLogStr("ints"))) + 1
 //@   ensures instant: err == nil ==> vExists(func(v int64) bool { return vTrig(strconv.FormatInt(v, 10)) && vLogStr("ints")[len(vLogStr("ints"))-1] == strconv.FormatInt(v, 10) && t == time.UnixMilli(v) })
+
+// ---------------------------------------------------------------------------
+// String-formatted integers (C13): the encoder writes, as ONE raw JSON token, a quote, the decimal text
+// of the value AT ITS OWN SIGNEDNESS AND FULL WIDTH (FormatUint of the value for unsigned types,
+// FormatInt for signed ones - no conversion through the other signedness), and a quote. The digits are
+// appended into a local array through a slice of it (in-place append, modelled by the `appends`
+// directive of the assumed strconv contracts).
+// ---------------------------------------------------------------------------
+
+//@ extern func (e *jx.Encoder) Raw(b []byte) (ok bool)
+//@   effect raw string(b)
+
+//@ func EncodeStringUint64(e *jx.Encoder, v uint64)
+//@   requires enc: e != nil
+//@   modifies log:raw
+//@   ensures text: vSeqEq(vLogStr("raw"), vCat(old(vLogStr("raw")), []string{"\"" + strconv.FormatUint(v, 10) + "\""}))
+//@ func EncodeStringUint(e *jx.Encoder, v uint)
+//@   requires enc: e != nil
+//@   modifies log:raw
+//@   ensures text: vSeqEq(vLogStr("raw"), vCat(old(vLogStr("raw")), []string{"\"" + strconv.FormatUint(uint64(v), 10) + "\""}))
+//@ func EncodeStringUint32(e *jx.Encoder, v uint32)
+//@   requires enc: e != nil
+//@   modifies log:raw
+//@   ensures text: vSeqEq(vLogStr("raw"), vCat(old(vLogStr("raw")), []string{"\"" + strconv.FormatUint(uint64(v), 10) + "\""}))
+//@ func EncodeStringInt64(e *jx.Encoder, v int64)
+//@   requires enc: e != nil
+//@   modifies log:raw
+//@   ensures text: vSeqEq(vLogStr("raw"), vCat(old(vLogStr("raw")), []string{"\"" + strconv.FormatInt(v, 10) + "\""}))
+//@ func EncodeStringInt32(e *jx.Encoder, v int32)
+//@   requires enc: e != nil
+//@   modifies log:raw
+//@   ensures text: vSeqEq(vLogStr("raw"), vCat(old(vLogStr("raw")), []string{"\"" + strconv.FormatInt(int64(v), 10) + "\""}))
+//@ func EncodeStringUint8(e *jx.Encoder, v uint8)
+//@   requires enc: e != nil
+//@   modifies log:raw
+//@   ensures text: vSeqEq(vLogStr("raw"), vCat(old(vLogStr("raw")), []string{"\"" + strconv.FormatUint(uint64(v), 10) + "\""}))
+//@ func EncodeStringUint16(e *jx.Encoder, v uint16)
+//@   requires enc: e != nil
+//@   modifies log:raw
+//@   ensures text: vSeqEq(vLogStr("raw"), vCat(old(vLogStr("raw")), []string{"\"" + strconv.FormatUint(uint64(v), 10) + "\""}))
+//@ func EncodeStringInt(e *jx.Encoder, v int)
+//@   requires enc: e != nil
+//@   modifies log:raw
+//@   ensures text: vSeqEq(vLogStr("raw"), vCat(old(vLogStr("raw")), []string{"\"" + strconv.FormatInt(int64(v), 10) + "\""}))
+//@ func EncodeStringInt8(e *jx.Encoder, v int8)
+//@   requires enc: e != nil
+//@   modifies log:raw
+//@   ensures text: vSeqEq(vLogStr("raw"), vCat(old(vLogStr("raw")), []string{"\"" + strconv.FormatInt(int64(v), 10) + "\""}))
+//@ func EncodeStringInt16(e *jx.Encoder, v int16)
+//@   requires enc: e != nil
+//@   modifies log:raw
+//@   ensures text: vSeqEq(vLogStr("raw"), vCat(old(vLogStr("raw")), []string{"\"" + strconv.FormatInt(int64(v), 10) + "\""}))
